@@ -39,10 +39,13 @@ NO_PANIC_EXACT = {
     "<T as digest::Mac>::finalize", "<T as digest::Mac>::update", "<T as digest::Mac>::new_from_slice", "<T as digest::Mac>::chain_update",
     "<T as std::convert::Into<U>>::into", "<T as std::convert::TryInto<U>>::try_into", "std::convert::Into::into", "std::convert::AsRef::as_ref",
     "<num_bigint::BigInt as std::cmp::PartialEq>::eq", "num_bigint::BigInt::from_bytes_le", "num_bigint::BigInt::to_bytes_le",
-    "<rand::prelude::ThreadRng as rand::RngCore>::fill_bytes", "<rand::prelude::ThreadRng as rand::RngCore>::next_u32", "<rand::prelude::ThreadRng as rand::RngCore>::next_u64", "rand::thread_rng", "rand::random",
+    "<rand::prelude::ThreadRng as rand::RngCore>::fill_bytes", "<rand::prelude::ThreadRng as rand::RngCore>::next_u32", "<rand::prelude::ThreadRng as rand::RngCore>::next_u64", "rand::thread_rng", "rand::random", "rand::Rng::fill", "rand::Rng::gen",
     "<std::result::Result<T, E> as std::ops::Try>::branch",
     "<std::result::Result<T, F> as std::ops::FromResidual<std::result::Result<std::convert::Infallible, E>>>::from_residual",
     "<I as std::iter::IntoIterator>::into_iter", "core::slice::iter::<impl std::iter::IntoIterator for &'a mut [T]>::into_iter", "core::slice::iter::<impl std::iter::IntoIterator for &'a [T]>::into_iter",
+    "std::iter::Iterator::take_while", "std::iter::Iterator::count", "std::iter::Iterator::map", "std::iter::Iterator::filter", "std::iter::Iterator::rev", "std::iter::Iterator::take", "std::iter::Iterator::chain", "std::iter::Iterator::all", "std::iter::Iterator::any", "std::iter::Iterator::position", "std::iter::Iterator::collect", "std::iter::Iterator::copied", "std::iter::Iterator::cloned", "std::iter::Iterator::fold", "std::iter::Iterator::last", "std::iter::Iterator::nth", "std::iter::Iterator::sum", "std::iter::Iterator::find", "std::iter::Iterator::by_ref",
+    "core::slice::<impl [T]>::first", "core::slice::<impl [T]>::last", "core::slice::<impl [T]>::get", "core::slice::<impl [T]>::get_mut", "core::slice::<impl [T]>::split_first", "core::slice::<impl [T]>::starts_with", "core::slice::<impl [T]>::ends_with", "core::slice::<impl [T]>::contains", "core::slice::<impl [T]>::reverse", "core::slice::<impl [T]>::fill", "core::slice::<impl [T]>::to_vec", "core::slice::<impl [T]>::as_ptr", "core::slice::<impl [T]>::chunks_exact", "core::slice::<impl [T]>::iter().copied",
+    "std::option::Option::<T>::map", "std::option::Option::<T>::map_or", "std::option::Option::<T>::is_some", "std::option::Option::<T>::is_none", "std::option::Option::<T>::unwrap_or", "std::option::Option::<T>::unwrap_or_default", "std::option::Option::<T>::ok_or", "std::result::Result::<T, E>::map", "std::result::Result::<T, E>::map_err", "std::result::Result::<T, E>::is_ok", "std::result::Result::<T, E>::is_err", "std::result::Result::<T, E>::ok", "std::result::Result::<T, E>::and_then",
     "std::iter::Iterator::enumerate", "std::iter::Iterator::zip", "std::iter::Iterator::skip", "std::iter::Iterator::cycle", "std::iter::Iterator::for_each", "std::iter::Iterator::next",
     "core::slice::<impl [T]>::iter", "core::slice::<impl [T]>::iter_mut", "core::slice::<impl [T]>::len", "core::slice::<impl [T]>::is_empty",
     "core::str::<impl str>::chars", "core::str::<impl str>::is_empty", "core::str::<impl str>::len", "std::str::from_utf8", "core::str::from_utf8",
@@ -56,6 +59,7 @@ NO_PANIC_EXACT = {
     "std::clone::Clone::clone", "std::default::Default::default",
 }
 NO_PANIC_PREFIX = (
+    "std::convert::num::<impl std::convert::From<", "core::convert::num::<impl std::convert::From<", "<std::iter::Map<", "<std::iter::TakeWhile<", "<std::iter::Rev<", "<std::iter::Take<", "<std::iter::Chain<", "<std::iter::Copied<", "<std::iter::Cloned<", "<std::slice::ChunksExact<", "<std::ops::Range<", "std::iter::range::<impl std::iter::Iterator for std::ops::Range<",
     "core::num::<impl u", "core::num::<impl i", "std::char::methods::<impl char>::", "<std::slice::Iter", "<std::slice::IterMut", "<std::iter::Enumerate<", "<std::iter::Zip<", "<std::iter::StepBy<", "<std::iter::Skip<",
     "num_bigint::bigint::addition::", "num_bigint::bigint::subtraction::", "num_bigint::bigint::multiplication::", "num_bigint::bigint::convert::",
 )
